@@ -208,6 +208,36 @@ def run(ctx, host=None):
     else:
         chk.ok(R4, w.qualname, norm(guard)[:100], detail='position check dominates the write; position and hash updated after it')
 
+    # ---------------------------------------------------------------- R5: context managers never swallow the error that interrupts their block
+    R5 = chk.rule('C17.R5', 'no context manager of the package suppresses exceptions: every __exit__ returns None/False; no @contextmanager generator swallows around its yield', 5)
+    nexit = 0
+    for f in prog.all_functions():
+        if isinstance(f.node, ast.Lambda):
+            continue
+        if f.name == '__exit__' and f.cls is not None:
+            nexit += 1
+            rets = [r for r in walk_local(f.node) if isinstance(r, ast.Return) and r.value is not None and not (isinstance(r.value, ast.Constant) and r.value.value in (None, False))]
+            if rets:
+                chk.bad(R5, f.qualname, norm(rets[0])[:90], f'`__exit__` returns `{norm(rets[0].value)[:50]}`: a true value tells Python to swallow the exception raised inside the `with` block, so an I/O error in '
+                        'the middle of a write is silently dropped and the operation goes on to commit a row for an object that was only partly written', where=f'{f.module.relpath}:{rets[0].lineno}')
+            else:
+                chk.ok(R5, f.qualname, 'return value of __exit__', detail='None / False on every path: exceptions propagate', nontrivial=False)
+        elif f.is_contextmanager:
+            nexit += 1
+            badh = None
+            for tr in [n for n in walk_local(f.node) if isinstance(n, ast.Try)]:
+                if not any(isinstance(x, (ast.Yield, ast.YieldFrom)) for b in tr.body for x in ast.walk(b)):
+                    continue
+                for h in tr.handlers:
+                    if not any(isinstance(x, ast.Raise) for x in ast.walk(ast.Module(body=h.body, type_ignores=[]))):
+                        badh = h
+            if badh is not None:
+                chk.bad(R5, f.qualname, f'except {norm(badh.type) if badh.type is not None else ""}: (no re-raise) around the yield', 'this context manager catches what its `with` block raises and does not re-raise: '
+                        'the error that interrupted the block is swallowed', where=f'{f.module.relpath}:{badh.lineno}')
+            else:
+                chk.ok(R5, f.qualname, 'handlers around the yield', detail='none, or all re-raise', nontrivial=False)
+    chk.require(nexit >= 5, f'expected >= 5 context managers (__exit__ methods / @contextmanager functions) in the package, found {nexit}')
+
     # rules of other properties that are necessary conditions of this one too: recovery after a fault assumes packs are append-only and only repack removes pack files (C13)
     if host is None:
         from ..report import host_modules
